@@ -142,3 +142,29 @@ prop("C19", "proof",
      "ParseAdjacent::eval itself (two-pass parse, scope trimming) is a for-loop over a custom iterator and is not under contract.",
      ["ParseAdjacent::eval (src/structs.rs:1126-1219) and adjacent ParseCommand: not under contract", "set_scope/adjacently_available_from/adjacent_scope: bounded (3 items) only"],
      note=VERUS_NOTE)
+
+KANI_NOTE = ("Bounded model checking (Kani 0.68 / CBMC 6.11) of the real functions compiled inside the crate through the cfg(kani) include hooks; "
+             "every bound is stated per unit; nothing here is counted as proved. Trusted: Kani/CBMC, the harness's expected-output computation, ASCII assumptions where stated.")
+prop("C15", "other",
+     "bounded and narrow: the single-quote escaping wrapper `Shell` that every renderer is supposed to use turns every ASCII string of length <= 3 into exactly one single-quoted shell word "
+     "(the transformation is character-local, so 3 characters exercise every transition). That the renderers route every user-derived string through it, one directive per line, exactly once, is NOT decided "
+     "(format!/writeln! code is out of reach of both tools; defects D2/D3 of DESIGN.md section 7 are of that kind).",
+     ["render_bash/zsh/fish/simple, check_complete, static completer stubs"],
+     note=KANI_NOTE, technique="Kani bounded model checking of the real Shell Display impl (bounded stand-in)")
+prop("C16", "other",
+     "bounded, leaves only: roff escaping (`escape`) of one fragment of two free ASCII bytes in Special/SpecialNoNewline mode (no output line starts with a control character, user backslashes are doubled) "
+     "and of control-line arguments (no raw space/newline/backslash); html style transitions for all 8x8 style pairs (complete: loop free, full domain). "
+     "Completeness of sections versus --help, render_html's angle-bracket escaping and markdown are not decided.",
+     ["extract_sections / section completeness", "render_html loop (`<`/`>` replacement)", "markdown rendering", "roff document assembly"],
+     note=KANI_NOTE, technique="Kani bounded model checking of escape() and change_style() (bounded stand-in; change_style complete)")
+prop("C18", "other",
+     "bounded: ParseFlag::eval and ParseArgument::take_argument on 2 items with std::env::var_os replaced by a nondeterministic stub (so every environment state is covered): "
+     "a name on the line wins and the variable is not consulted; the variable is used only when the name is absent from the line; both absent gives the absent value / Missing; "
+     "a present name with a missing value is a final error that the variable does not paper over; variables other than the declared one are never read. "
+     "The same behaviour is what the Verus tier assumes as flag_rel / arg_rel.",
+     ["interaction with wrappers beyond what parse_option/fallback give generically", "help rendering of variable state"],
+     note=KANI_NOTE, technique="Kani bounded model checking with std::env::var_os stubbed (bounded stand-in for an assumed Verus contract)")
+PROPS["C02"]["not_covered"] = ["split_os_argument beyond the bounds of K03 (ASCII <= 3 bytes, fixed non-ASCII families)", "disambiguate_short / collect_shorts", "parse_os_str pass-through"]
+PROPS["C02"]["claim"] = PROPS["C02"]["explanation"] = (
+    "value pick-up after tokenisation is proved (take_arg returns exactly the payload of the item following the leftmost matching name, marks exactly those two items; `adjacent` accepts exactly the same-item spellings); "
+    "the byte-level tokenizer split_os_argument is checked by Kani within bounds only (all ASCII strings of length 2 and 3, `-c=v`/`--c=v` with a two-byte character c and any byte v, `-cw=v`).")
